@@ -33,12 +33,12 @@ Definition wstep_shared (w : sworld) (i : nat) : sworld :=
 
 (* which package-level variables exist and who writes them: the only ones allowed are never written and hold error
    values (from the standard constructors or a constructor of the package that returns an error), compiled regular
-   expressions, constants, the logger and the read-only page-size table *)
+   expressions, constants, the logger and read-only tables (literals of plain values that the sources only index, range
+   over or measure: tools/go2coq/globals.go) *)
 Definition allowed_global (row : string * string * string * list string) : bool :=
   let '(pkg, name, kind, writers) := row in
   match writers with
-  | [] => existsb (String.eqb kind) ["call:errors.New"; "call:fmt.Errorf"; "call:regexp.MustCompile"; "returns:error"; "returns:*DocumentError"; "returns:*Logger"; "constant"]%string
-          || (String.eqb name "predefinedSizes" && String.eqb kind "literal")
+  | [] => existsb (String.eqb kind) ["call:errors.New"; "call:fmt.Errorf"; "call:regexp.MustCompile"; "returns:error"; "returns:*DocumentError"; "returns:*Logger"; "constant"; "literal:read-only table"]%string
   | _ => false
   end.
 Definition globals_ok : bool := forallb allowed_global globals.
